@@ -411,6 +411,17 @@ package errbase
 //@           invariant[C06] self.redactableOutput && wfR(bbContent(old(self.finalBuf))) ==> wfR(bbContent(self.finalBuf))
 
 
+
+// formatErrorInternal (C09 / C06): unsupported verbs - in particular %q %x %X and %#v when
+// redactable output is requested - are refused with fmt's %!verb(type) notation, written to the
+// fmt.State as raw bytes (redact escapes and encloses them); every other case goes through
+// finishDisplay with a buffer that is a well-formed redactable string in redactable mode.
+//@ func formatErrorInternal
+//@   props C06 C09 C05
+//@   requires s != nil && err != nil
+//@   requires redactableOutput ==> typeis(s, redact.SafePrinter)
+//@   ensures[C09] !(verb == 'v' && stFlag(s, '+') && !stFlag(s, '#')) && !(!redactableOutput && verb == 'v' && stFlag(s, '#')) && !(verb == 's' || (verb == 'v' && !stFlag(s, '#')) || (!redactableOutput && (verb == 'x' || verb == 'X' || verb == 'q'))) ==> $out == old($out) + "%!" + charStr(verb) + "(" + typeString(typeof(err)) + ")"
+
 // finishDisplay (C09: width / precision / verb handling; C06: what is handed to redact as
 // RedactableBytes is the well-formed buffer). $out is the text written to the caller's fmt.State.
 //@ method (*state).finishDisplay
